@@ -401,7 +401,7 @@ def gen_beta(rng):
     elif m < 0.93:
         PA = rng.uniform(0.01, 0.5)
     else:
-        PA = rng.uniform(0.47, 0.5)      # beta close to 0: the root search from x0 = -0.6 is fragile here
+        PA = rng.uniform(0.47, 0.5)      # beta close to 0: the root search from x0 = -0.6 of the code before 763ab65 was fragile here
     return {"kind": "beta", "PA": PA}
 
 
@@ -464,9 +464,9 @@ class C09(Prop):
             "proved for an abstract strictly increasing (and symmetric) Phi: the solution x of Phi(x) = P_A is unique (equivalently the "
             "residual |Phi(x) - P_A| vanishes exactly there) and beta = -x, Phi(beta) = 1 - P_A, beta >= 0 for P_A <= 1/2; NOT proved: "
             "that the number the code obtains for x IS that solution for the standard normal Phi (REPAIRED code, "
-            "tools/fixes/C09-compute-beta-quantile.diff: scipy.stats.norm.ppf; code before the repair: scipy.optimize.root, hybrid Powell "
+            "/repo commit 763ab65: scipy.stats.norm.ppf; code before the repair: scipy.optimize.root, hybrid Powell "
             "from x0 = -0.6 on the non-smooth residual, which does NOT converge for every P_A in (0, 0.5] - finding class "
-            "beta-root-search-fails, witness P_A = 0.4915868354632816) - measured per run: compute_beta vs an independent quantile "
+            "beta-root-search-fails, fixed by 763ab65, witness P_A = 0.4915868354632816) - measured per run: compute_beta vs an independent quantile "
             "(series / continued fraction + bisection in the driver) and vs math.erfc in the oracle, P_A in [1e-100, 0.5]",
     }
     RULE = ("case = one of: P_RAM curve parameters + parameter / cycle values (incl. exactly P_Z, P_D, 1e3, N_D and their neighbours); "
@@ -486,7 +486,8 @@ class C09(Prop):
         "C09: multi-point tables are generated in the layout the recorder documents and delivers (MultiIndex.from_product("
         "[range(n_hystereses), range(n_points)]), 'both counting from 0 upwards', same closed/run pattern for all points - the HCM "
         "decisions are taken on the first node); other assessment_point_index labels are outside the admissible tables (with a "
-        "per-point curve the code then mis-aligns is_life_infinite or raises - C10's node-id finding); run-1 rows precede run-2 "
+        "per-point curve the code then mis-aligns is_life_infinite or raises; the related C10 finding batch-node-order, about the order of the "
+        "node_id labels in maximum_absolute_load, is fixed by /repo commit 64dfe3b); run-1 rows precede run-2 "
         "rows; tables without a run-2 row are rejected by the code (IndexError) and are not generated",
         "C09 FORMALISATION CHOICE (number of cycles): the property text's 'number of cycles' is read as eq. (2.6-91) of the guideline, "
         "(1 + x) passes times the number n2 = H0 of hystereses of the repeated pass - NOT the count n1 + x*n2 of hystereses literally "
@@ -505,18 +506,18 @@ class C09(Prop):
         "non-decreasing array); pandas' groupby sum/cumsum are modelled as plain sums (Kahan compensation changes ulps only): "
         "tables whose prefix sums come closer than 1e-9 to one without being exactly representable ties are compared without the index",
         "C09: P_RAM: strain amplitude and E non-negative (numpy sqrt of a negative product under a non-negative factor is NaN)",
-        "C09: compute_beta is sampled for P_A in [1e-100, 0.5] (denser towards 0.5, where the root search of the unrepaired code "
-        "fails for about 1 % of the values in (0.48, 0.5)); the model is the REPAIRED behaviour (the quantile itself)",
+        "C09: compute_beta is sampled for P_A in [1e-100, 0.5] (denser towards 0.5, where the root search of the code before /repo "
+        "commit 763ab65 failed for about 1 % of the values in (0.48, 0.5)); the model is the REPAIRED behaviour (the quantile itself)",
         "C09: of constants.py only the keys C09 reads are tied to the model and the guideline here (E, a_M, b_M, d_1, d_2, "
         "a/b_PZ/PD_RAM, d_RAJ, a/b_PZ/PD_RAJ): correspondence, Bridge.constants_eq_c09, C09.constants_eq_guideline, oracle and the "
         "published material-curve literals of the corpus; the rest of the table (k_st, a_RP, f_25..., read by the assessment) is "
-        "Proofs/BridgeConstsAll.lean, to be listed by C10",
+        "Proofs/BridgeConstsAll.lean, listed by C10 (Bridge.constants_eq, Bridge.constants_keys_complete)",
         "C09: gamma_L takes beta from the tabulated list (_get_beta, np.isclose matching), not from compute_beta - modelled as coded",
         "C09: a P_RAJ curve whose endurance value has been lowered (update_P_RAJ_D, done by the P_RAJ damage calculation) is in scope: "
         "calc_N uses the current value, calc_P_RAJ / fatigue_life_limit the initial one; on (P_RAJ_D, P_RAJ_D_0] resp. "
         "[N_D, N_D,final) the curve is neither inverse nor strictly decreasing: open finding praj-updated-endurance-band (no small "
         "safe repair: the updated value is a per-node Series in the assessment, calc_P_RAJ is evaluated on N arrays for plotting)",
-        "C09: P_RAJ damage parameter row function (crack opening loop) and DamageCalculatorPRAJ are not modelled here (C10 treats the P_RAJ pipeline by oracle)",
+        "C09: P_RAJ damage parameter row function (crack opening loop) and DamageCalculatorPRAJ are not modelled here (C10 models the P_RAJ pipeline from the recorded hysteresis table on: harness/praj.py + Model/PRAJ.lean, case kind praj; what lies before the table is judged by C10's oracle on the real code)",
     ]
 
     # tie T (DESIGN 1.1): lean/Generated/<name>.lean are regenerated from the current python source before the build;
